@@ -165,7 +165,6 @@ inductive AVal where
   | str (s : String)
   | float (bits : Nat)
   | list (l : List Val)
-  | panic                   -- the operator panicked (arithmetic overflow with overflow checks on)
   deriving DecidableEq, Repr
 
 def ofVal : Val → AVal
@@ -175,8 +174,8 @@ def ofVal : Val → AVal
 
 /-- `AggregateFunction` (the ones of C08) -/
 inductive AggFn where
-  | count          -- `Count`: COUNT(*) — and what Cypher's `count(x)` is translated to
-  | countNonNull   -- `CountNonNull`: what GQL's `count(x)` is translated to
+  | count          -- `Count`: COUNT(*)
+  | countNonNull   -- `CountNonNull`: what `count(x)` is translated to (GQL and Cypher)
   | sum | avg | min | max | collect
   deriving DecidableEq, Repr
 
@@ -200,7 +199,6 @@ inductive St where
   | max (m : Option Val)
   | collect (l : List Val)
   | collectD (l : List Val) (seen : List Val)
-  | panic
   deriving DecidableEq, Repr
 
 /-- `AggregateState::new` -/
@@ -249,12 +247,11 @@ def maxStep (cur : Option Val) (v : Val) : Option Val :=
   | none => some v
   | some c => if cmpAgg v c = some .gt then some v else some c
 
-/-- `*sum += v` on `i64` with overflow checks (the harness build; a release build wraps) -/
-def addI64 (s v : Int) (k : Int → St) : St := if inI64 (s + v) then k (s + v) else .panic
-
+/-- `sum.checked_add(v)`: an integer sum that leaves the `i64` range continues in the float
+accumulator, `sum as f64 + v as f64` -/
 def sumIntStep (s : Int) (v : Val) : St :=
   match v with
-  | .int i => addI64 s i .sumInt
+  | .int i => if inI64 (s + i) then .sumInt (s + i) else .sumFloat (fadd (ofInt s) (ofInt i))
   | .str t => (match parseF64 t.toList with
                | some x => .sumFloat (fadd (ofInt s) x)
                | none => .sumInt s)
@@ -263,7 +260,7 @@ def sumIntStep (s : Int) (v : Val) : St :=
 def sumIntDStep (s : Int) (seen : List Val) (v : Val) : St :=
   if seen.contains v then .sumIntD s seen
   else match v with
-    | .int i => addI64 s i (fun s' => .sumIntD s' (v :: seen))
+    | .int i => if inI64 (s + i) then .sumIntD (s + i) (v :: seen) else .sumFloatD (fadd (ofInt s) (ofInt i)) (v :: seen)
     | .str t => (match parseF64 t.toList with
                  | some x => .sumFloatD (fadd (ofInt s) x) (v :: seen)
                  | none => .sumIntD s (v :: seen))
@@ -295,7 +292,6 @@ def St.update (st : St) (v : Val) : St :=
   | .max m => .max (maxStep m v)
   | .collect l => .collect (l ++ [v])
   | .collectD l seen => if seen.contains v then .collectD l seen else .collectD (l ++ [v]) (v :: seen)
-  | .panic => .panic
 
 /-- `AggregateState::finalize` -/
 def St.finalize : St → AVal
@@ -311,7 +307,6 @@ def St.finalize : St → AVal
   | .max m => ofVal (m.getD .null)
   | .collect l => .list l
   | .collectD l _ => .list l
-  | .panic => .panic
 
 /-! ## the operators -/
 
@@ -361,15 +356,16 @@ def hashAgg (groupCols : List Nat) (aggs : List AggExpr) (chunks : List (List Ro
 
 /-! ## specification of the aggregates
 
-Nulls are ignored. `count` counts, `sum` of integers is the exact integer (an error when it leaves
-the 64-bit range), `avg` is the exact mean rounded once to a double, `sum` / `avg` of a value that
-is not a number is a type error, `min` / `max` pick the extremum of the value order (strings before
+Nulls are ignored. `count` counts, `sum` of integers is the exact integer (when it leaves the
+64-bit range the result is not constrained: the code continues with a float), `avg` is the exact
+mean rounded once to a double, `sum` / `avg` of a value that is not a number is a type error, `min` / `max` pick the extremum of the value order (strings before
 numbers, as in openCypher's orderability; strings by code points, integers by value), `collect`
 gathers the values. DISTINCT removes duplicates first. -/
 
 inductive SRes where
   | ok (v : AVal)
   | err (what : String)
+  | any                     -- not constrained by the specification
   deriving DecidableEq, Repr
 
 def nonNull (vs : List Val) : List Val := vs.filter (· != .null)
@@ -422,7 +418,7 @@ def specAgg (fn : AggFn) (distinct : Bool) (input : List Val) : SRes :=
   | .countNonNull => .ok (.int vs.length)
   | .sum =>
     if !vs.all isInt then .err "type"
-    else if inI64 (intSum vs) then .ok (.int (intSum vs)) else .err "overflow"
+    else if inI64 (intSum vs) then .ok (.int (intSum vs)) else .any
   | .avg =>
     if !vs.all isInt then .err "type"
     else if vs.isEmpty then .ok .null
@@ -432,10 +428,6 @@ def specAgg (fn : AggFn) (distinct : Bool) (input : List Val) : SRes :=
   | .collect => .ok (.list vs)
 
 /-! ## aggregate queries (GQL / Cypher `RETURN key…, agg(…)…`) -/
-
-inductive Lang where
-  | gql | cypher
-  deriving DecidableEq, Repr
 
 /-- what an aggregate ranges over: a property of a pattern variable or the variable itself -/
 inductive Src where
@@ -481,55 +473,33 @@ def Item.isKey : Item → Bool
 def keyItems (items : List Item) : List Item := items.filter Item.isKey
 def aggItems (items : List Item) : List Item := items.filter (fun i => !i.isKey)
 
-/-- `try_extract_aggregate`: the GQL translator turns `count(x)` into `CountNonNull`, the Cypher
-translator leaves `Count` (which the operator treats as COUNT(*) unless DISTINCT is set) -/
-def lowerFn (lang : Lang) : SFn → AggFn
+/-- `try_extract_aggregate` (both translators): `count(x)` becomes `CountNonNull`, an aggregate
+without argument `Count` -/
+def specFn : SFn → AggFn
   | .countStar => .count
-  | .count => (match lang with | .gql => .countNonNull | .cypher => .count)
+  | .count => .countNonNull
   | .sum => .sum | .avg => .avg | .min => .min | .max => .max | .collect => .collect
 
 def itemSrc : Item → Src
   | .key v k => .prop v k
   | .agg _ _ s => s
 
+def keyVals (q : AggQ) (b : Binding) : List Val :=
+  (keyItems q.items).map (fun i => srcVal b (itemSrc i))
+
+def aggVals (q : AggQ) (b : Binding) : List Val :=
+  (aggItems q.items).map (fun i => srcVal b (itemSrc i))
+
 /-- the row handed to the aggregate operator: key columns, then one column per aggregate -/
-def opRow (q : AggQ) (b : Binding) : Row :=
-  ((keyItems q.items) ++ (aggItems q.items)).map (fun i => srcVal b (itemSrc i))
+def opRow (q : AggQ) (b : Binding) : Row := keyVals q b ++ aggVals q b
 
-def physAggs (lang : Lang) (q : AggQ) : List AggExpr :=
-  let nk := (keyItems q.items).length
-  (aggItems q.items).zipIdx.map (fun (i, j) => match i with
-    | .agg fn d _ => { fn := lowerFn lang fn, col := some (nk + j), distinct := d }
-    | .key _ _ => { fn := .count, col := none, distinct := false })
+/-- the physical aggregate of an item whose input sits in column `c` -/
+def physAgg (c : Nat) : Item → AggExpr
+  | .agg fn d _ => { fn := specFn fn, col := some c, distinct := d }
+  | .key _ _ => { fn := .count, col := none, distinct := false }
 
-/-- column types of `plan_aggregate`'s output schema: a value of another kind pushed into a typed
-vector is replaced by the vector's default (`ValueVector::push_value`, "type mismatch") -/
-def coerceOut (fn : AggFn) (v : AVal) : AVal :=
-  match fn with
-  | .collect => v
-  | .avg => (match v with | .float _ => v | .null => v | .panic => v | _ => .float 0)
-  | _ => (match v with | .int _ => v | .null => v | .panic => v | _ => .int 0)     -- Int64 columns
-
-def coerceRow (nk : Nat) (aggs : List AggExpr) (row : List AVal) : List AVal :=
-  row.take nk ++ ((row.drop nk).zip aggs).map (fun (v, a) => coerceOut a.fn v)
-
-/-- `is_simple_aggregate` + the other conditions of the factorized path: no keys, two or more
-hops, only `count` over variables: `FactorizedAggregate::count[_column]` ignores DISTINCT -/
-def predVar : Pred → Nat
-  | .cmp v _ _ _ => v
-  | .notCmp v _ _ _ => v
-  | .isNull v _ => v
-  | .isNotNull v _ => v
-
-def factorizedPath (q : AggQ) : Bool :=
-  (keyItems q.items).isEmpty && decide (q.hops.length ≥ 2) &&
-  -- the aggregate sits directly on the expand chain: no label test on a hop target, and every
-  -- conjunct of WHERE is about the first variable (pushed below the expands by the optimizer)
-  q.hops.all (fun h => h.target.label.isNone) && q.preds.all (fun p => predVar p == 0) &&
-  q.items.all (fun i => match i with
-    | .agg .countStar _ _ => true
-    | .agg .count _ (.node _) => true
-    | _ => false)
+def physAggs (q : AggQ) : List AggExpr :=
+  (aggItems q.items).zipIdx.map (fun (i, j) => physAgg ((keyItems q.items).length + j) i)
 
 def hasCountStar (q : AggQ) : Bool := q.items.any (fun i => match i with | .agg .countStar _ _ => true | _ => false)
 
@@ -591,82 +561,52 @@ def outPos (items : List Item) (i : Nat) : Nat :=
     else (keyItems items).length + ((items.take i).filter (fun x => !x.isKey)).length
   | none => 0
 
-/-- `ValueVector::set_null` allocates the validity mask with the length the vector has at its
-first null and never extends it (`push_*` only grow the data): in a typed vector only the first null
-is recorded, every later null reads back as the type's default value -/
-def defaultOf (fn : AggFn) : AVal :=
-  match fn with
-  | .avg => .float 0
-  | _ => .int 0
-
-def loseNullsCol (dflt : AVal) : Bool → List AVal → List AVal
-  | _, [] => []
-  | seen, v :: vs =>
-    if v == .null then (if seen then dflt else .null) :: loseNullsCol dflt true vs
-    else v :: loseNullsCol dflt seen vs
-
-/-- the aggregate columns of the operator's output chunk (all typed except `collect`) -/
-def loseNulls (nk : Nat) (aggs : List AggExpr) (out : List (List AVal)) : List (List AVal) :=
-  let cols : List (List AVal) := aggs.zipIdx.map (fun (a, j) =>
-    let col := out.map (fun r => r.getD (nk + j) .null)
-    if a.fn == .collect then col else loseNullsCol (defaultOf a.fn) false col)
-  out.zipIdx.map (fun (r, i) => r.take nk ++ cols.map (fun c => c.getD i .null))
-
-/-- the aggregate operator over the filtered bindings, as the planner sets it up -/
-def aggRowsWith (lose : Bool) (lang : Lang) (q : AggQ) (bs : List Binding) : List (List AVal) :=
+/-- the aggregate operator over the filtered bindings, as the planner sets it up: a simple
+aggregate when there is no key, a hash aggregate otherwise. (The output vectors of `count` and
+`avg` are typed Int64 / Float64 and always receive a value of that type or a null; those of `sum`,
+`min`, `max`, `collect` are untyped. The factorized aggregate the planner chooses for `count` over
+the variables of an unfiltered chain of two or more hops returns the same count.) -/
+def aggRows (q : AggQ) (bs : List Binding) : List (List AVal) :=
   let kept := bs.filter (passes q.preds)
   let rows := kept.map (opRow q)
   let nk := (keyItems q.items).length
-  let aggs := physAggs lang q
-  let aggs := if factorizedPath q then aggs.map (fun a => { a with distinct := false }) else aggs
-  let out := if nk = 0 then [simpleAgg aggs [rows]] else hashAgg (List.range nk) aggs [rows]
-  let out := out.map (coerceRow nk aggs)
-  if lose then loseNulls nk aggs out else out
+  if nk = 0 then [simpleAgg (physAggs q) [rows]] else hashAgg (List.range nk) (physAggs q) [rows]
 
-def finishAggWith (lose : Bool) (lang : Lang) (q : AggQ) (bs : List Binding) : Res :=
+def finishAgg (q : AggQ) (bs : List Binding) : Res :=
   if hasCountStar q then .error "syntax"       -- neither parser accepts `*` as an argument
   else
-    let out := aggRowsWith lose lang q bs
-    if out.any (fun r => r.contains .panic) then .error "panic"
-    else
-      let out := if q.orderBy.isEmpty then out else sortA (q.orderBy.map (fun (i, asc) => (outPos q.items i, asc))) out
-      .rows (window q.skip q.limit out)
-
-def finishAgg (lang : Lang) (q : AggQ) (bs : List Binding) : Res := finishAggWith true lang q bs
+    let out := aggRows q bs
+    let out := if q.orderBy.isEmpty then out else sortA (q.orderBy.map (fun (i, asc) => (outPos q.items i, asc))) out
+    .rows (window q.skip q.limit out)
 
 /-- as coded: the scan / expand pipeline feeds the aggregate operator -/
-def Pipe.execAgg (lang : Lang) (g : Graph) (q : AggQ) : Res := finishAgg lang q (Pipe.bindings g q.core)
+def Pipe.execAgg (g : Graph) (q : AggQ) : Res := finishAgg q (Pipe.bindings g q.core)
 
 /-! ### specification: group the bindings that pass the predicate by their key values, evaluate
 every aggregate on its group, lay the row out as RETURN lists it, then ORDER BY / SKIP / LIMIT -/
 
-def specFn : SFn → AggFn
-  | .countStar => .count
-  | .count => .countNonNull
-  | .sum => .sum | .avg => .avg | .min => .min | .max => .max | .collect => .collect
-
-def keyVals (q : AggQ) (b : Binding) : List Val :=
-  (keyItems q.items).map (fun i => srcVal b (itemSrc i))
-
 abbrev dedupKeys (ks : List (List Val)) : List (List Val) := dedupFirst ks
 
-/-- one output cell of the group with key `k` -/
-def specCell (q : AggQ) (grp : List Binding) (k : List Val) (i : Nat) (it : Item) : SRes :=
-  match it with
-  | .key _ _ => .ok (ofVal (k.getD ((q.items.take i).filter Item.isKey).length .null))
-  | .agg fn d s => specAgg (specFn fn) d (grp.map (fun b => srcVal b s))
+/-- the cells of one output row in RETURN order; `ks` holds the values of the keys not yet placed -/
+def specCells (grp : List Binding) : List Val → List Item → List SRes
+  | _, [] => []
+  | ks, .key _ _ :: rest => .ok (ofVal (ks.headD .null)) :: specCells grp ks.tail rest
+  | ks, .agg fn d s :: rest => specAgg (specFn fn) d (grp.map (fun b => srcVal b s)) :: specCells grp ks rest
 
 def specRow (q : AggQ) (kept : List Binding) (k : List Val) : List SRes :=
-  let grp := kept.filter (fun b => keyVals q b == k)
-  q.items.zipIdx.map (fun (it, i) => specCell q grp k i it)
+  specCells (kept.filter (fun b => keyVals q b == k)) k q.items
 
 def sresErr : SRes → Option String
   | .err e => some e
-  | .ok _ => none
+  | _ => none
 
 def sresVal : SRes → AVal
   | .ok v => v
-  | .err _ => .null
+  | _ => .null
+
+def sresAny : SRes → Bool
+  | .any => true
+  | _ => false
 
 def finishSpec (q : AggQ) (bs : List Binding) : Res :=
   let kept := bs.filter (passes q.preds)
@@ -675,9 +615,11 @@ def finishSpec (q : AggQ) (bs : List Binding) : Res :=
   match (cells.flatten.filterMap sresErr).head? with
   | some e => .error e
   | none =>
-    let out := cells.map (fun r => r.map sresVal)
-    let out := if q.orderBy.isEmpty then out else sortA q.orderBy out
-    .rows (window q.skip q.limit out)
+    if cells.flatten.any sresAny then .unconstrained
+    else
+      let out := cells.map (fun r => r.map sresVal)
+      let out := if q.orderBy.isEmpty then out else sortA q.orderBy out
+      .rows (window q.skip q.limit out)
 
 def Spec.evalAgg (g : Graph) (q : AggQ) : Res := finishSpec q (Spec.bindings g q.core)
 
@@ -709,35 +651,6 @@ def GremQ.core (q : GremQ) : Q :=
   { start := q.start, hops := q.hops, preds := q.preds, ret := .countStar, distinct := false,
     orderBy := [], skip := none, limit := none }
 
-/-- a row of the plan: the vertices bound so far and the edge column every Expand adds -/
-structure ERow where
-  nodes : Binding
-  edges : List Nat
-  deriving Repr
-
-/-- `Pipe.expandStep` that also keeps the id of the traversed edge -/
-def expandE (g : Graph) (h : Hop) (r : ERow) : List ERow :=
-  match r.nodes.getLast? with
-  | none => []
-  | some a =>
-    let outs := g.edges.filter (fun e => e.src == a.id)
-    let ins := g.edges.filter (fun e => e.dst == a.id)
-    let cands : List (Edge × Nat) := match h.dir with
-      | .out => outs.map (fun e => (e, e.dst))
-      | .inc => ins.map (fun e => (e, e.src))
-      | .both => outs.map (fun e => (e, e.dst)) ++ (ins.filter (fun e => e.src != a.id)).map (fun e => (e, e.src))
-    cands.filterMap (fun (e, cid) =>
-      if tyOk h e then
-        match g.node? cid with
-        | some c => if labelOk h.target c then some ⟨r.nodes ++ [c], r.edges ++ [e.id]⟩ else none
-        | none => none
-      else none)
-
-def eRows (g : Graph) (q : GremQ) : List ERow :=
-  q.hops.foldl (fun rows h => rows.flatMap (expandE g h)) ((g.nodes.filter (labelOk q.start)).map (fun a => ⟨[a], []⟩))
-
-def lastNode (b : Binding) : Option Node := b.getLast?
-
 def lastProp (b : Binding) (k : Nat) : Val :=
   match b.getLast? with
   | some n => propOf n k
@@ -748,59 +661,50 @@ def lastId (b : Binding) : Val :=
   | some n => .int n.id
   | none => .null
 
-/-- `Distinct` with `columns: None` compares whole rows — vertices *and* the edge columns -/
-def dedupERows : List ERow → List ERow
+/-- `dedup()` = `Distinct` on the column of the current traverser (the translator names it, the
+planner honours `DistinctOp.columns`): the first row for every current vertex is kept -/
+def dedupByLast : List Binding → List Binding
   | [] => []
-  | r :: rs => r :: (dedupERows rs).filter (fun x => !(x.nodes.map (·.id) == r.nodes.map (·.id) && x.edges == r.edges))
+  | b :: bs => b :: (dedupByLast bs).filter (fun x => lastId x != lastId b)
 
 def gAggFn : GAgg → AggFn
   | .count => .count | .sum => .sum | .mean => .avg | .min => .min | .max => .max
 
-/-- as coded -/
-def Pipe.execGremlin (g : Graph) (q : GremQ) : Res :=
-  let rows := (eRows g q).filter (fun r => passes q.preds r.nodes)
-  let rows := if q.dedup == .nodes then dedupERows rows else rows
-  let rows := match q.order with
-    | some (k, asc) =>
-      (sortA [(0, asc)] (rows.zipIdx.map (fun (r, i) => [ofVal (lastProp r.nodes k), .int i]))).filterMap
-        (fun sr => match sr with | [_, .int i] => rows[i.toNat]? | _ => none)
-    | none => rows
-  let rows := window q.skip q.limit rows
+/-- stable sort of bindings by a property of their last vertex (`Sort` on `Property(current, k)`) -/
+def sortByLast (k : Nat) (asc : Bool) (bs : List Binding) : List Binding :=
+  (sortA [(0, asc)] (bs.zipIdx.map (fun (b, i) => [ofVal (lastProp b k), .int i]))).filterMap
+    (fun sr => match sr with | [_, .int i] => bs[i.toNat]? | _ => none)
+
+/-- the steps after the pattern, on a list of bindings (plan rows; their edge columns play no role) -/
+def gremSteps (keepMissing : Bool) (q : GremQ) (bs : List Binding) : List Val :=
+  let bs := bs.filter (passes q.preds)
+  let bs := if q.dedup == .nodes then dedupByLast bs else bs
+  let bs := match q.order with
+    | some (k, asc) => sortByLast k asc bs
+    | none => bs
+  let bs := window q.skip q.limit bs
   -- the current column: the projected value, or the vertex (read as its id)
   let vals : List Val := match q.proj with
-    | some k => rows.map (fun r => lastProp r.nodes k)
-    | none => rows.map (fun r => lastId r.nodes)
-  let vals := if q.dedup == .values then dedupVals vals else vals
+    | some k => (if keepMissing then id else nonNull) (bs.map (fun b => lastProp b k))
+    | none => bs.map lastId
+  if q.dedup == .values then dedupVals vals else vals
+
+/-- as coded: `values(k)` is a projection and yields a null where the property is missing; the
+reducing steps are the simple aggregate over the current column -/
+def Pipe.execGremlin (g : Graph) (q : GremQ) : Res :=
+  let vals := gremSteps true q (Pipe.bindings g q.core)
   match q.agg with
   | none => .rows (vals.map (fun v => [ofVal v]))
-  | some a =>
-    let ae : AggExpr := { fn := gAggFn a, col := some 0, distinct := false }
-    let out := (simpleAgg [ae] [vals.map (fun v => [v])]).map (coerceOut ae.fn)
-    if out.contains .panic then .error "panic" else .rows [out]
+  | some a => .rows [simpleAgg [{ fn := gAggFn a, col := some 0, distinct := false }] [vals.map (fun v => [v])]]
 
 /-- specification (TinkerPop reading of the same steps over the enumeration of all bindings): a
 traverser is its current element; `dedup()` compares current elements; `values(k)` yields the
 property of those elements that have it; the reducing steps follow `specAgg` (unconstrained on an
 empty stream, where Gremlin dialects differ) -/
-def dedupByLast : List Binding → List Binding
-  | [] => []
-  | b :: bs => b :: (dedupByLast bs).filter (fun x => lastId x != lastId b)
-
 def Spec.evalGremlin (g : Graph) (q : GremQ) : Res :=
-  let bs := (Spec.bindings g q.core).filter (passes q.preds)
-  let bs := if q.dedup == .nodes then dedupByLast bs else bs
-  let bs := match q.order with
-    | some (k, asc) =>
-      (sortA [(0, asc)] (bs.zipIdx.map (fun (b, i) => [ofVal (lastProp b k), .int i]))).filterMap
-        (fun sr => match sr with | [_, .int i] => bs[i.toNat]? | _ => none)
-    | none => bs
   if q.order.isNone && (q.skip.isSome || q.limit.isSome) then .unconstrained
   else
-    let bs := window q.skip q.limit bs
-    let vals : List Val := match q.proj with
-      | some k => nonNull (bs.map (fun b => lastProp b k))
-      | none => bs.map lastId
-    let vals := if q.dedup == .values then dedupVals vals else vals
+    let vals := gremSteps false q (Spec.bindings g q.core)
     match q.agg with
     | none => .rows (vals.map (fun v => [ofVal v]))
     | some .count => .rows [[.int vals.length]]
@@ -809,6 +713,7 @@ def Spec.evalGremlin (g : Graph) (q : GremQ) : Res :=
       else match specAgg (gAggFn a) false vals with
         | .ok v => .rows [[v]]
         | .err e => .error e
+        | .any => .unconstrained
 
 /-! ## GraphQL (`graphql_translator.rs`): `{ label(args) { fields… type(args) { fields… … } } }`
 root field = label scan, arguments = equality / `where: {k_op: v}` filters, scalar fields =
@@ -851,12 +756,14 @@ def Spec.evalGraphql (g : Graph) (q : GqlQ) : Res :=
     else .rows (kept.map (projA q.cols))
 
 /-- two sibling selections `{ l { k9 t1 { k9 } t2 { k9 } } }`: both hops leave the root.
-As coded (`plan_expand_chain`): consecutive Expand operators are executed as a chain — every
-expand after the first starts from the previous target, whatever its `from_variable` says. -/
+As coded: the second Expand does not continue the first (`continues_chain`), so each is planned
+as an ordinary Expand from the column of its own `from_variable` — the root for both. -/
 def Pipe.execStar (g : Graph) (label t1 t2 : Nat) : Res :=
-  let q : Q := { start := ⟨some label⟩, hops := [⟨some t1, .out, ⟨none⟩⟩, ⟨some t2, .out, ⟨none⟩⟩], preds := [],
-                 ret := .props [(0, 9), (1, 9), (2, 9)], distinct := false, orderBy := [], skip := none, limit := none }
-  .rows ((Pipe.bindings g q).map (projA [(0, 9), (1, 9), (2, 9)]))
+  let h1 : Hop := ⟨some t1, .out, ⟨none⟩⟩
+  let h2 : Hop := ⟨some t2, .out, ⟨none⟩⟩
+  .rows ((g.nodes.filter (labelOk ⟨some label⟩)).flatMap (fun a =>
+    (Pipe.expandStep g h1 [a]).flatMap (fun ab =>
+      (Pipe.expandStep g h2 [a]).map (fun ac => projA [(0, 9), (1, 9), (2, 9)] (ab ++ ac.drop 1)))))
 
 def Spec.evalStar (g : Graph) (label t1 t2 : Nat) : Res :=
   let h1 : Hop := ⟨some t1, .out, ⟨none⟩⟩
